@@ -66,6 +66,7 @@ def run_real(b, case, root):
         res["cmakes"][os.path.basename(os.path.dirname(p))] = open(p, errors="replace").read()
     res["created"] = G.tree_listing(cx)
     res["sc_dir"] = sc
+    res["cx_dir"] = cx
     return res
 
 
@@ -165,8 +166,32 @@ def oracle(case, res, names):
         # no schema of the file gets a build description and none has per-schema files: nothing is to be built, the
         # per-file files (schema.h, SdaiAll.cc …) are not part of any library
         unlisted = [f for f in unlisted if f not in ("SdaiAll.cc", "Sdaiclasses.h", "compstructs.cc", "schema.cc", "schema.h")]
-    if not missing and not unlisted:
+    # PER SCHEMA (the union over the schemas of a file hides a list that holds another schema's files): the entity/ and type/
+    # files a schema's CMakeLists.txt lists must be those the generator wrote for THAT schema - the headers Sdai<SCHEMA>.h
+    # (or its pass files Sdai<SCHEMA>_<k>.h) #include, and their .cc counterparts
+    foreign = []
+    if len(parsed) > 1 and "cx_dir" in res:
+        for d, p in sorted(parsed.items()):
+            u = re.escape(p["schema"].upper())
+            hdrs = [f for f in created if re.fullmatch(r"Sdai" + u + r"(_\d+)?\.h", f)]
+            if not hdrs:
+                continue
+            inc = set()
+            for h in hdrs:
+                inc |= set(re.findall(r'(?m)^#include "((?:entity|type)/[^"]+)\.h"', open(os.path.join(res["cx_dir"], h), errors="replace").read()))
+            lst = {f.rsplit(".", 1)[0] for f in G.listed_files(p) if f.startswith(("entity/", "type/"))}
+            extra, lacking = sorted(lst - inc), sorted(x for x in inc - lst if any(f.startswith(x + ".") for f in created))
+            if extra or lacking:
+                foreign.append((p["schema"], extra, lacking))
+    if not missing and not unlisted and not foreign:
         return early or None
+    if foreign and not missing and not unlisted:
+        sn, extra, lacking = foreign[0]
+        return list(early) + [("files:per-schema-lists-differ-from-the-schema's-own-files",
+                               f"{len(foreign)} of the {len(parsed)} schemas of the file: CMakeLists.txt of schema {sn} lists {extra[:6]}{'…' if len(extra) > 6 else ''} "
+                               f"which Sdai{sn.upper()}.h does not include (files of other schemas of the file)"
+                               + (f" and lacks {lacking[:6]} which it includes" if lacking else "")
+                               + "; over all schemas of the file together the lists and the created files agree")]
     allm = sorted(x for v in missing.values() for x in v)
     # Decompose the mismatch into the known shapes, schema by schema (several may occur in one file); whatever is not
     # explained by them is reported under a key that names the *shape* of the remaining failure.
@@ -263,24 +288,58 @@ def observed_sufs(names, created, ast=None):
     return ";".join(out)
 
 
-def correspondence(ctx, case, res, names, model_exe):
+def _pnorm(xs):
+    def nl(l):
+        w = l.split()
+        return " ".join(w[:6] + [",".join(sorted(set(x.split(",")))) for x in w[6:]])
+    return [(sn, sorted(nl(l) for l in ls)) for sn, ls in xs]
+
+
+def correspondence(ctx, case, res, names, model_exe, b=None):
     """-> list of disagreement strings between the model and the real programs"""
     obs = observed_sufs(names, res["created"], case.ast)
     lines = G.ast_lines(res["exp"], case.ast) + ["scan", "passes", "cxx auto", "cxx " + obs]
+    # the pass decision of multpass.c (print_schemas_separate, checkTypes, checkEnts, checkItem) is in the model:
+    # predicted SCHEMAprint suffixes per schema, for files with and without interface clauses.  The structure it looks at
+    # (select items, attribute types, supertypes, renames - as RESOLVED) is read off the real parser's model (h_exprdump -p)
+    # for every input, generated or not; for generated inputs the generator's own view of it is compared as well.
+    pobjs = G.pass_objects_from_dump(b, res["exp"]) if b is not None else None
     if case.gen is not None:
-        # the pass decision of multpass.c (print_schemas_separate, checkTypes, checkEnts, checkItem) is in the model:
-        # predicted SCHEMAprint suffixes per schema, for files with and without interface clauses
-        for sn, ls in G.pass_objects(case.gen):
+        gview = G.pass_objects(case.gen)
+        if pobjs is None:
+            pobjs = gview
+        elif _pnorm(pobjs) != _pnorm(gview):
+            ctx.hist("passes", "generator's view of the pass structure differs from the parser's (the parser's is used)")
+    if pobjs is not None:
+        for sn, ls in pobjs:
             lines.append("pschema " + sn)
             lines += ls
         lines.append("printfile")
+    # ComplexCollect (built before anything is written; compstructs.cc is printed from it): the lists the model keeps after
+    # the constructor's pruning loop vs the `// ComplexList with supertype "…":` lines of the real compstructs.cc
+    cls = G.complex_lists_from_dump(b, res["exp"]) if (b is not None and "cx_dir" in res) else None
+    if cls is not None:
+        lines += cls + ["collect"]
     rc, out, err = G.run_driver(model_exe, lines)
+    if cls is not None and rc == 0 and len(out) == len(lines):
+        k = out.pop()
+        del out[len(out) - len(cls):]
+        del lines[len(lines) - len(cls) - 1:]
+        cs = os.path.join(res["cx_dir"], "compstructs.cc")
+        real = re.findall(r'(?m)^\s*// ComplexList with supertype "([^"]*)":', open(cs, errors="replace").read()) if os.path.exists(cs) else None
+        ctx.hist("collect", "compstructs.cc lists predicted by Collect.build" + (" (none)" if not real else " (same name twice)" if len(set(real)) < len(real) else ""))
+        if real is not None and k != ("K " + " ".join(real)).rstrip() and k.rstrip() != ("K " + " ".join(real)).rstrip():
+            early_dis = f"compstructs.cc ComplexLists: exp2cxx {real[:8]} vs Collect.build {k[:200]!r}"
+        else:
+            early_dis = None
+    else:
+        early_dis = None
     if rc != 0 or len(out) != len(lines) or "bad-op" in out:
         return [f"model driver rc={rc} answered {len(out)}/{len(lines)} lines {err[-200:]} {[o for o in out if o == 'bad-op'][:1]}"]
     n0 = len(G.ast_lines(res["exp"], case.ast))
     scan, passes, cauto, cobs = out[n0:n0 + 4]
-    dis = []
-    if case.gen is not None:
+    dis = [early_dis] if early_dis else []
+    if pobjs is not None:
         pf = out[-1]
         want = {kv.split("=")[0]: kv.split("=")[1] for kv in obs.split(";")}
         got = {kv.split("=")[0]: kv.split("=")[1] for kv in pf[2:].split(";")} if pf.startswith("F ") and "=" in pf else pf
@@ -458,6 +517,46 @@ def renamed_in_select_cases(ctx, n):
     return out
 
 
+def inverse_cases(ctx, n):
+    """INVERSE attributes as a dimension: where the inverted attribute comes from for the entity the clause names — declared by it /
+    inherited through its first supertype / through its 2nd or 3rd supertype / from two levels up a later supertype — under many
+    identifier permutations (the dictionary order decides whether the entity declaring the INVERSE is printed before or after the
+    one it names and the supertypes between them)."""
+    r = ctx.rng
+    words = ["identified", "usage", "occurrence", "part", "assembly", "link", "relation", "member", "holder", "owner", "node", "edge",
+             "joint", "carrier", "slot", "mount", "frame", "panel", "bracket", "fixture", "anchor", "bearing", "socket", "plug", "strap",
+             "tag", "label", "record", "entry", "note", "mark", "unit", "group", "bundle", "stack", "layer", "zone", "cell", "grid", "rail"]
+    out = []
+    for i in range(n):
+        ws = r.sample(words, 7)
+        if r.random() < 0.5:
+            ws = [w + r.choice(["", "_a", "_b2", "_x", "_item", "_1"]) for w in ws]
+        ident, usage, occ, part, asm, top, extra = ws
+        v = i % 5
+        holder = top if v == 3 else usage                       # who declares whole / component
+        sup = {0: [], 1: [usage, ident], 2: [ident, usage], 3: [ident, usage], 4: [ident, extra, usage]}[v]
+        named = usage if v == 0 else occ
+        ents = []
+        ents.append((ident, f"ENTITY {ident};\n  id : STRING;\nEND_ENTITY;"))
+        if v == 3:
+            ents.append((top, f"ENTITY {top};\n  whole : {asm};\n  component : {part};\nEND_ENTITY;"))
+            ents.append((usage, f"ENTITY {usage}\n  SUBTYPE OF ({top});\n  rank : INTEGER;\nEND_ENTITY;"))
+        else:
+            ents.append((usage, f"ENTITY {usage};\n  whole : {asm};\n  component : {part};\nEND_ENTITY;"))
+        if v == 4:
+            ents.append((extra, f"ENTITY {extra};\n  remark : STRING;\nEND_ENTITY;"))
+        if v != 0:
+            ents.append((occ, f"ENTITY {occ}\n  SUBTYPE OF ({', '.join(sup)});\n  quantity : INTEGER;\nEND_ENTITY;"))
+        ents.append((part, f"ENTITY {part};\n  name : STRING;\nINVERSE\n  used_in : SET [0:?] OF {named} FOR component;\nEND_ENTITY;"))
+        ents.append((asm, f"ENTITY {asm};\n  name : STRING;\nINVERSE\n  made_of : {'SET [0:?] OF ' if i % 2 else 'BAG OF '}{named} FOR whole;\nEND_ENTITY;"))
+        r.shuffle(ents)
+        sn = r.choice(["inverse_over_inherited", "inv_s", "product_structure"])
+        text = f"SCHEMA {sn};\n\n" + "\n\n".join(t for _, t in ents) + "\n\nEND_SCHEMA;\n"
+        label = ["declared-by-the-named-entity", "via-first-supertype", "via-second-supertype", "two-levels-up-the-second-supertype", "via-third-supertype"][v]
+        out.append(Case(f"inverse-{label}-{ctx.seed}-{i}", text, "inverse_attributes", ast=[(sn, [f"ent {nm} 0" for nm, _ in ents])]))
+    return out
+
+
 def shape_cases(ctx, quick):
     """type-only schemas (each kind of defined type alone, a vocabulary schema) and long-but-legal identifiers
     (60..200 characters, singly and in pairs) for every declaration kind"""
@@ -544,8 +643,27 @@ def examine(ctx, b, case, model_exe, idx):
             # … or an entity name declared in two schemas of the file (ComplexCollect keeps its lists by supertype NAME)
             ents = [l.split()[1] for _, ds in (case.ast or []) for l in ds if l.startswith("ent ")]
             dup = sorted({e for e in ents if ents.count(e) > 1})
+            # what the models say about this input: ComplexCollect's pruning loop (Collect.build) and the pass logic (Pass.printFile)
+            said = []
+            try:
+                cl = G.complex_lists_from_dump(b, res["exp"])
+                po = G.pass_objects_from_dump(b, res["exp"])
+                if cl is not None and po is not None:
+                    ql = ["reset"] + cl + ["collect"]
+                    for sn, ls in po:
+                        ql += ["pschema " + sn] + ls
+                    ql.append("printfile")
+                    qrc, qout, _ = G.run_driver(model_exe, ql)
+                    if qrc == 0 and len(qout) == len(ql):
+                        if qout[len(cl) + 1] == "K hung":
+                            said.append("Collect.build: the constructor of ComplexCollect never finishes on these lists")
+                        if qout[-1] == "F hung":
+                            said.append("Pass.printFile: the sweep loop of checkTypes never settles")
+                        ctx.hist("termination", "non-termination " + ("predicted by the model" if said else "NOT predicted by the models"))
+            except Exception as e:
+                said.append(f"(models not asked: {e})")
             key = "exp2cxx-does-not-terminate:" + ("select-cycle-through-aggregates" if cyc else "same-entity-name-in-two-schemas" if dup else "other")
-            who = (f"schema_scanner exits 0 and writes a build description; exp2cxx does not terminate"
+            who = ((f"[predicted by the model - {'; '.join(said)}] " if said else "") + f"schema_scanner exits 0 and writes a build description; exp2cxx does not terminate"
                    + (f" (selects {cyc} contain each other in a circle through aggregate types: checkTypes' sweep loop never settles)" if cyc else
                       f" (entity name(s) {dup} are declared in more than one schema of the file: ComplexCollect::remove() cannot find the second list of that name and the "
                       f"loop that drops dependent lists in ComplexCollect::ComplexCollect() spins)" if dup else ""))
@@ -572,7 +690,8 @@ def examine(ctx, b, case, model_exe, idx):
                                                           "renamed-in-select" if case.name.startswith("renamed-in-select") else
                                                           "type-only" if case.name.startswith("type-only") else
                                                           "select-nesting" if case.name.startswith("select-") else
-                                                          "long-identifier" if case.name.startswith("long-identifier") else "fixed"))
+                                                          "long-identifier" if case.name.startswith("long-identifier") else
+                                                          "inverse-attributes" if case.name.startswith("inverse-") else "fixed"))
     ctx.hist("schemas-per-file", str(min(len(names), 4)) + ("+" if len(names) >= 4 else ""))
     if case.gen is not None:
         for ft in case.gen.features():
@@ -601,7 +720,7 @@ def examine(ctx, b, case, model_exe, idx):
                                        "schema_scanner <file>   (in directory D)", "write <file> := express; touch -d 2020-01-01 <file>",
                                        "schema_scanner <file>   (again in D)", "compare D/<short>/CMakeLists.txt with a scan in an empty directory and with the files exp2cxx creates"]})
         ctx.hist("oracle", "history clause (scanner output independent of earlier output / mtimes)")
-    dis = correspondence(ctx, case, res, names, model_exe)
+    dis = correspondence(ctx, case, res, names, model_exe, b)
     if dis:
         ctx._disagree.append((case.name, dis[0], o))
     shutil.rmtree(root, ignore_errors=True)
@@ -624,7 +743,7 @@ def run(ctx):
         "compared with the observed pass suffixes",
         "identifiers are ASCII (the lexer rejects anything else); ToUpper/ToLower are the C-locale functions",
     ]
-    ctx.lean("StepModel.Props.C17", exes=["m_c17"], extractors=["scanner", "exphash", "cxxpass"])
+    ctx.lean("StepModel.Props.C17", exes=["m_c17"], extractors=["scanner", "exphash", "cxxpass", "cxxcollect", "cxxmarks"])
     b = ctx.build("plain")
     model_exe = ctx.model_exe("m_c17")
     if not os.path.exists(model_exe):
@@ -639,6 +758,7 @@ def run(ctx):
     cases += shape_cases(ctx, quick)
     cases += select_nesting_cases(ctx, quick)
     cases += renamed_in_select_cases(ctx, 40 if quick else 400)
+    cases += inverse_cases(ctx, 40 if quick else 400)
     cases += generated_cases(ctx, 40 if quick else 300)
     cases += shipped_cases(b, quick)
     t0 = time.time()
@@ -666,7 +786,7 @@ def replay(ctx, path):
     d = json.load(open(path))
     r = d.get("replay", d)
     ctx._disagree = []
-    ctx.lean("StepModel.Props.C17", exes=["m_c17"], extractors=["scanner", "exphash", "cxxpass"])
+    ctx.lean("StepModel.Props.C17", exes=["m_c17"], extractors=["scanner", "exphash", "cxxpass", "cxxcollect", "cxxmarks"])
     b = ctx.build("plain")
     fn = r["file_name"]
     if r["express"].startswith("<shipped file"):
